@@ -4,7 +4,10 @@ import json, glob, os, re
 rows=[]
 for d in sorted(glob.glob('/verif/seeded/*/')):
     m=json.load(open(d+'meta.json'))
-    rows.append("| `%s` | %s | %s | %s |" % (os.path.basename(d[:-1]), m['breaks_property'], m['needs_to_manifest'].replace('|','/'), m['result'].replace('|','/')))
+    res=m['result']
+    if m.get('rebased'): res+=' ['+m['rebased']+']'
+    if m.get('obsolete'): res+=' [OBSOLETE: '+m['obsolete']+']'
+    rows.append("| `%s` | %s | %s | %s |" % (os.path.basename(d[:-1]), m['breaks_property'], m['needs_to_manifest'].replace('|','/'), res.replace('|','/')))
 table = "## 17. Seeded changes and the checks that catch them\n\nEach row is a change written by an independent sub-agent that was given only the property text and a scratch worktree; it compiles, passes the 255 lib + 57 doc tests, and comes with a demonstration test that fails with it and passes without it (re-confirmed by `selftest/confirm_seed.sh`). `selftest/try_patch.sh <patch> [IDs]` applies it to /repo, runs the quick tier and reverts.\n\n| seeded change | property | needs to manifest | result |\n|---|---|---|---|\n" + "\n".join(rows) + "\n"
 p='/verif/DESIGN.md'
 s=open(p).read()
